@@ -4,7 +4,7 @@ import traceback
 
 from . import base
 
-MODULES = ['flags']
+MODULES = ['flags', 'chain', 'core']
 
 
 def all_contracts():
